@@ -11,12 +11,16 @@ trap cleanup EXIT
 cd "$wt" || exit 2
 run() { PYTHONPATH="$wt" PYTHONDONTWRITEBYTECODE=1 timeout 600 /venv/bin/python -B "$@"; }
 applies=no; tests=; demo_with=; demo_without=
+# the demo runs from the same relative place it was written in (<worktree>/_out/<x>/demo.py):
+# some demos locate the code under test relative to their own path
+x=$(basename "$d"); mkdir -p "$wt/_out/$x"; cp "$d/demo.py" "$wt/_out/$x/demo.py"
+demo="$wt/_out/$x/demo.py"
 if git apply --check "$d/patch.diff" 2>/dev/null; then
   applies=yes
-  run "$d/demo.py" >/dev/null 2>&1; demo_without=$?
+  run "$demo" >/dev/null 2>&1; demo_without=$?
   git apply "$d/patch.diff"
   tests=$(run -m pytest -q -p no:cacheprovider --timeout=900 2>&1 | tail -1)
-  run "$d/demo.py" > "$wt/.demo.out" 2>&1; demo_with=$?
+  run "$demo" > "$wt/.demo.out" 2>&1; demo_with=$?
   first=$(head -c 300 "$wt/.demo.out" | tr '\n' ' ')
 fi
 ok=1
